@@ -171,12 +171,12 @@ var c02decode = map[string]c02dec{
 	},
 }
 
-var c02hexRun = regexp.MustCompile(`\b[0-9a-fA-FN]*N[0-9a-fA-FN]*\b`)
+var c02hexRun = regexp.MustCompile(`0[xX][0-9a-fA-F]+|\b[0-9a-fA-F]*[0-9][0-9a-fA-F]*\b`)
 
 // errClass strips the input-dependent parts of an error message.
 func c02errClass(err error) string {
-	s := mon.PanicClass(err.Error())
-	s = c02hexRun.ReplaceAllString(s, "N") // hexadecimal values: digits were already replaced by N
+	s := c02hexRun.ReplaceAllString(err.Error(), "N") // hexadecimal values
+	s = mon.PanicClass(s)
 	s = strings.Map(func(r rune) rune {
 		if r < 0x20 || r > 0x7e {
 			return '?'
